@@ -29,7 +29,7 @@ MAX_WORKERS = 16
 
 
 def time_limit(tier):
-    return 900 if tier == 'quick' else 5400
+    return common.default_limit(tier)
 
 
 def budget(tier):
